@@ -251,13 +251,17 @@ func encTVars(vars []envVar) string {
 func evalCases(eng *engine, vars []envVar, vals map[string]*val.Val, src string, tag string) []Case {
 	var out []Case
 	parsed, perr := parseSrc(src)
+	human := src
+	if len(human) > 240 {
+		human = fmt.Sprintf("%s…(%d bytes)", human[:240], len(src))
+	}
 	if perr != nil {
-		return []Case{{Human: src, Want: "syntax-error", Tags: []string{"prog:syntax-error", tag}}}
+		return []Case{{Human: human, Want: "syntax-error", Tags: []string{"prog:syntax-error", tag}}}
 	}
 	d := trans.Desugar(parsed)
 	plain := encExpr(d)
 	ty, cerr := checkExpr(eng, vars, d)
-	cc := Case{Human: "check " + src, Tags: []string{tag}}
+	cc := Case{Human: "check " + human, Tags: []string{tag}}
 	cc.Req = sxList("check", eng.funsx, encTVars(vars), plain)
 	cc.Nontriv = true
 	if cerr != nil {
@@ -273,7 +277,7 @@ func evalCases(eng *engine, vars []envVar, vals map[string]*val.Val, src string,
 	cc.Tags = append(cc.Tags, "check:accept", "type:"+ty.Kind.String())
 	out = append(out, cc)
 
-	rc := Case{Human: "run " + src, Tags: []string{tag}, Nontriv: true}
+	rc := Case{Human: "run " + human, Tags: []string{tag}, Nontriv: true}
 	rc.Req = sxList("run", "plain", eng.funsx, encVars(vars, vals), externsFor(d), encExpr(d))
 	outs := make([]outcome, len(backends))
 	for i, b := range backends {
@@ -411,6 +415,7 @@ func init() {
 			for _, p := range fixedPrograms {
 				cs = append(cs, evalCases(eng, envFamily, vals, p, "prog:fixed")...)
 			}
+			cs = append(cs, specialCases()...)
 			for i := 0; i < n; i++ {
 				if i%20 == 0 {
 					eng = newEngine(pickHosts(r))
